@@ -76,7 +76,7 @@ Inductive err :=
 | EDropColumn          (* DROP COLUMN refused: the column is used by the primary key, an index, a UNIQUE or a foreign key *)
 | ENotNull             (* a row violates NOT NULL *)
 | EUnique              (* rows violate a UNIQUE index / PRIMARY KEY *)
-| EFKViolation         (* implicit DELETE of DROP TABLE hits a referencing row *)
+| EFKViolation         (* implicit DELETE of DROP TABLE hits a referencing row, or cannot compile an ON DELETE action ([drop_blocked]) *)
 | EUnsupported.        (* statement outside the model *)
 
 Inductive result (A : Type) := Ok (a : A) | Err (e : err).
@@ -359,11 +359,31 @@ Fixpoint implicit_delete (n : str) (prows : list row) (l : list ctable) : result
       end
   end.
 
+(** With [foreign_keys] on, the implicit DELETE compiles the ON DELETE action of every foreign key that
+    references the table; an action that rewrites the child table (CASCADE, SET NULL, SET DEFAULT)
+    fails to compile ("no such table") when that child table itself has a foreign key to a table
+    that does not exist (for SET NULL / SET DEFAULT: one sharing a column with the rewritten ones),
+    whether or not there are rows. *)
+Definition fk_missing_parent (l : list ctable) (f : fkey) : bool :=
+  match find_ct (f_reftable f) l with None => true | Some _ => false end.
+Definition shares_col (f g : fkey) : bool :=
+  existsb (fun c => existsb (str_eqb c) (f_cols g)) (f_cols f).
+Definition drop_blocked (n : str) (l : list ctable) : bool :=
+  existsb (fun c =>
+    existsb (fun f =>
+      str_eqb (f_reftable f) n &&
+      (let act := DiffSqlite.to_upper (f_ondelete f) in
+       (str_eqb act CASCADE && existsb (fk_missing_parent l) (t_fks (ct_t c)))
+       || ((str_eqb act SET_NULL || str_eqb act SET_DEFAULT)
+           && existsb (fun g => fk_missing_parent l g && shares_col f g) (t_fks (ct_t c)))))
+      (t_fks (ct_t c))) l.
+
 Definition drop_table (d : db) (n : str) : result db :=
   match find_ct n (db_tables d) with
   | None => Err ENoSuchTable
   | Some c =>
       if db_fk d then
+        if drop_blocked n (db_tables d) then Err EFKViolation else
         match implicit_delete n (ct_rows c) (db_tables d) with
         | Ok l => Ok (set_tables d (remove_ct n l))
         | Err e => Err e
